@@ -674,6 +674,50 @@ def rule_error_type_name(model):
     return r
 
 
+def rule_return_value_untouched(model):
+    r = RuleResult('C14.R10', 'the value handed to dtml-return is what the '
+                   'template call returns, whatever its type: between the '
+                   'handler that takes it out of DTReturn and the return '
+                   'statement the variable is not re-assigned (only handed '
+                   'to the after-render hook)')
+    fi = model.func('DT_String', 'String.__call__')
+    n = 0
+    for h in [x for x in own_nodes(fi.node)
+              if isinstance(x, ast.ExceptHandler) and x.type is not None
+              and 'DTReturn' in norm(x.type) and x.name]:
+        var = None
+        for y in ast.walk(h):
+            if isinstance(y, ast.Assign) and isinstance(
+                    y.value, ast.Attribute) and isinstance(
+                    y.value.value, ast.Name) and \
+                    y.value.value.id == h.name and isinstance(
+                        y.targets[0], ast.Name):
+                var = y.targets[0].id
+        if var is None:
+            continue
+        n += 1
+        tr = getattr(h, '_dt_parent', None)
+        inside = {id(z) for z in ast.walk(tr)} if tr is not None else set()
+        later = [y for y in own_nodes(fi.node)
+                 if isinstance(y, (ast.Assign, ast.AugAssign, ast.AnnAssign))
+                 and id(y) not in inside and
+                 getattr(y, 'lineno', 0) > getattr(h, 'lineno', 0) and any(
+                     isinstance(t, ast.Name) and t.id == var
+                     for t in (y.targets if isinstance(y, ast.Assign)
+                               else [y.target]))]
+        r.instance(fi.where, f'except DTReturn as {h.name}: {var} = ...',
+                   'returned untouched' if not later else 'RE-ASSIGNED')
+        for y in later:
+            r.finding(fi.where, y, f'`{var}` also carries the value given '
+                      'to dtml-return; it is re-assigned before the call '
+                      'returns it, so a returned value (bytes, here) does '
+                      'not come back as it was given', node=y, ctx=fi)
+    if n < 1:
+        raise AnalysisError('C14.R10: the DTReturn handler of the template '
+                            'call was not found')
+    return r
+
+
 def rule_handler_table(model):
     r = RuleResult('C14.R8', 'the handler table and the blocks a try / '
                    'raise / return tag keeps are re-iterable: a one-shot '
@@ -688,7 +732,8 @@ def rule_handler_table(model):
 
 
 RULES = [_inl(rule_return), _inl(rule_placement), _inl(rule_raise_exit),
-         rule_handler_table, _inl(rule_error_type_name)]
+         rule_handler_table, _inl(rule_error_type_name),
+         _inl(rule_return_value_untouched)]
 EXPLANATION = (
     'Who-may-catch analysis: least set of functions that can let DTReturn '
     'out (call graph incl. the block dispatch of render_blocks_), every try '
